@@ -216,6 +216,23 @@ def case_entry_points(ctx, s: Subject, ragged=False):
             ctx.case(f"entry.absent_list.{opn}", {"a": la, "b": lb, "kind": kind, "how": how}, real, None,
                      {"err": "ValueError"} if kind == "absent_vs_nonempty" else None,
                      features=("absent_list", kind, how, opn), spec_ok=ok, nontrivial=True)
+    # 5d. re-typing an EXISTING nested column to a nested dtype that announces a field the column does not have:
+    #     pyarrow's struct cast would fill that field with null lists next to the records of the others
+    if not is_ragged and n >= 1:
+        wider = NestedDtype(pa.struct(list(struct.type) + [pa.field("zz_extra", pa.list_(pa.string()))]))
+        src = pd.Series(NestedExtensionArray(struct), index=pd.Index(s.labels))
+        for opn, fn in (("series_astype", lambda: src.astype(wider)),
+                        ("frame_astype", lambda: NestedFrame({"nested": src}).astype({"nested": wider})["nested"]),
+                        ("series_dtype", lambda: pd.Series(src.array, index=src.index, dtype=wider)),
+                        ("from_sequence", lambda: pd.Series(NestedExtensionArray.from_sequence(src.array, dtype=wider)))):
+            def run(fn=fn):
+                ser = fn()
+                return {"row_lens": [None if r is None else sorted({(-1 if c is None else len(c)) for _, c in r})
+                                     for r in export.rows_view(ser.array)]}
+            real = call_real(run)
+            ok = "err" in real or all(r is None or len(r) <= 1 for r in real["ok"]["row_lens"])
+            ctx.case(f"entry.wider_dtype.{opn}", {**s.desc(), "extra_field": "zz_extra"}, real, None, None, hyp=s.hyp,
+                     features=feats + ("wider_dtype", opn), spec_ok=ok, nontrivial=any(r for r in rows))
     # 6. take with a ragged fill value
     if is_ragged:
         bad = next(r for r, r0 in zip(rows, s.content["rows"]) if r != r0)
